@@ -585,6 +585,27 @@ def cases(tier, seed):
         cs.append({'kind': 'kxor', 'k': 4, 'n': n, 'm': m, 'pname': 'dependent-7-rank-4',
                    'planted': planted, 'scripted': True, 'hashing': False, 'max_dev': 0,
                    'default': 'mix', 'default_seed': 1, 'horizon': 5000000, 'max_execs': 2})
+    # word-size thresholds: variables numbered 64 and above with two planted
+    # assignments that differ only there; more than 64 planted assignments
+    n = 70
+    alltrue = list(range(1, n + 1))
+    but70 = alltrue[:-1] + [-n]
+    but65 = alltrue[:64] + [-65] + alltrue[65:]
+    for (k, m, pl) in ((1, 69, [alltrue, but70]), (1, 70, [alltrue, but70]), (2, 300, [alltrue, but70]),
+                       (2, 300, [alltrue, but65, but70]), (1, 68, [alltrue, but65, but70]),
+                       (1, 69, [alltrue, but65, but70])):
+        for sched in ('mix', 'zero:%d' % (12 * m + 50)):
+            cs.append({'kind': 'kxor', 'k': k, 'n': n, 'm': m, 'pname': 'two-differing-above-64',
+                       'planted': pl, 'scripted': True, 'hashing': False, 'max_dev': 0,
+                       'default': sched, 'default_seed': 1, 'horizon': 2000000, 'max_execs': 2})
+    many = [[v if (a >> (v - 1)) & 1 else -v for v in range(1, 8)]
+            for a in list(range(0, 128, 2)) + [1]]                  # 65 distinct assignments
+    caps = {k: compatible_clauses(k, 7, many) for k in (7, 3, 2)}
+    for (k, m) in ((7, caps[7]), (7, caps[7] + 1), (3, caps[3]), (3, caps[3] + 1), (2, caps[2])):
+        for sched in ('mix', 'zero:%d' % (12 * m + 50)):
+            cs.append({'kind': 'kcnf', 'k': k, 'n': 7, 'm': m, 'pname': '65-planted',
+                       'planted': many, 'scripted': True, 'hashing': False, 'max_dev': 0,
+                       'default': sched, 'default_seed': 1, 'horizon': 2000000, 'max_execs': 2})
     if not thorough:
         # two designated heavy cases: exact maximum / dense fallback with m=4
         cs.append({'kind': 'kcnf', 'k': 1, 'n': 2, 'm': 4, 'planted': [], 'pname': 'none'})
